@@ -7,6 +7,8 @@ import r_kind
 import r_viterbi
 import r_cand
 import r_token
+import r_scorer
+import r_misc
 
 NA = {
     "C17": "first-match order of a backtracking trie matcher over runtime rule lists: no structural "
@@ -23,6 +25,55 @@ def kind_scope(*mods):
 
 
 PROPS = {
+    "C07": {
+        "rules": [r_scorer.run, kind_scope("connector", "scorer", "builder")],
+        "explanation": "SCORERCHK: in the portable build costs[pos] is read only on the true edge "
+                       "of checks[pos] == key1 at pos = bases[key1] ^ key2; in the AVX2 build the "
+                       "cost gather is masked by cmpeq(check, key1) AND the position-validity "
+                       "mask, at the same pos as the check gather. PADVAL: every padding or missing "
+                       "template position carries the invalid feature id, never id 0. RESERVED0: "
+                       "the empty feature is id 0 in both maps before parsing and fills row 0. "
+                       "KIND: right/left feature tables, key1/key2 and readers are never crossed.",
+        "level_text": "Static structural rules in both build configurations: the collision check "
+                      "cannot be bypassed, padding cannot contribute costs, key roles are "
+                      "consistent. The equality of the sums, portable/AVX2 numeric agreement and "
+                      "the 16-bit split are not decided.",
+        "level_note": "Trusted: rustc MIR for both cfgs; semantics of the AVX2 intrinsics named in "
+                      "rules/r_scorer.py (mask gather, cmpeq, and).",
+        "technique": "guard-dominance and symbolic-expression rules over MIR (cfg twins), kind "
+                     "propagation, constant checks",
+    },
+    "C12": {
+        "rules": [r_misc.lattice_shape, r_misc.spaceopt, r_viterbi.traceback,
+                  kind_scope("tokenizer", "unknown")],
+        "explanation": "LATTICE: build_lattice_inner resets first, tests reachability, SPACE "
+                       "membership and the skipped run at start_node, adds candidates with "
+                       "(start_node, start_word), connects EOS from start_node on every path; "
+                       "KIND: words are inserted at start_word but linked at start_node "
+                       "everywhere; TRACEBACK: an EOS hanging directly off BOS yields no token; "
+                       "SPACEOPT: an undefined SPACE category is an error.",
+        "level_text": "Static shape rules for the start_node/start_word split. The invariance "
+                      "relation over re-spaced inputs itself is not decided.",
+        "level_note": "Trusted: rustc MIR; spec/kinds.json.",
+        "technique": "kind propagation (NODE/WORD/END), must-pass-through and loop-guard rules",
+    },
+    "C13": {
+        "rules": [r_reset.run_counts, r_viterbi.pred, r_misc.enumall,
+                  kind_scope("mapper", "worker", "lattice")],
+        "explanation": "RESET(W2, counts scope): update_connid_counts reads only a lattice that "
+                       "the current reset_sentence/tokenize refreshed (or returns for an empty "
+                       "sentence); PRED: each counted (right word, left word) pair takes the left "
+                       "nodes from ends[r.start_node], the list its connections were evaluated "
+                       "on, EOS included; KIND: left/right counters and sizes are not crossed; "
+                       "ENUMALL: each result list enumerates the whole counter, removes exactly "
+                       "id 0 and is only sorted afterwards.",
+        "level_text": "Static dataflow/shape rules: counts come from the current sentence only, "
+                      "counted pairs are the evaluated pairs, the output is a complete "
+                      "enumeration minus id 0. The sort order by frequency is not decided.",
+        "level_note": "Trusted: rustc MIR; spec/api_model.json; spec/kinds.json.",
+        "technique": "typestate dataflow, access-path pairing rule, iterator-chain shape rule, "
+                     "kind propagation",
+    },
     "C01": {
         "rules": [r_token.access, r_token.dispatch, r_cand.cand, r_cand.unkfall, r_viterbi.traceback,
                   r_reset.run_tokens],
@@ -131,8 +182,10 @@ PROPS = {
                      "fallible call sites, encoder/decoder sibling cross-check",
     },
     "C15": {
-        "rules": [r_codec.run_c15],
-        "explanation": "CODEC over the model image (ModelData: TrainerConfig, FeatureExtractor, "
+        "rules": [r_codec.run_c15, r_misc.cache, r_misc.orderdet],
+        "explanation": "CACHE: every Model method that mutates the model data resets the cached merged model; "
+                       "ORDERDET: no hash-iteration order leaks into the generated files; "
+                       "CODEC over the model image (ModelData: TrainerConfig, FeatureExtractor, "
                        "FeatureRewriter, rucrf RawModel fetched from crate metadata): ordered wire "
                        "types and fields of each hand-written encoder equal those of its decoder; "
                        "CONFIG as for C05.",
